@@ -1273,7 +1273,18 @@ func rulesC15(r *Run) {
 	}
 	ruleSubmitErrorHandled(r, "R3")
 	rulePoolPairing(r, "R3")
-	r.Expect("R3", 20)
+	// the K6 error-discipline rule over Search and List themselves (their producers included): a failure while reading is
+	// delivered to the consumer of the stream or returned, never dropped — a silently truncated result "answers from stored
+	// state" no more than a wrong one
+	// (the cosmosdb producers hand their results to sender(), whose only error is "the consumer's context ended": dropping
+	// that one is the idiom, so they are judged by R5 and by submit-error-handled, not here)
+	for _, k := range []string{sqlKey("reader.Search"), sqlKey("reader.List"), sqlKey("reader.listResultsFunc"), cosKey("reader.listResultsFunc")} {
+		if fn := r.P.Funcs[k]; fn != nil && fn.Decl.Body != nil {
+			r.Funcs[k] = true
+			errorDiscipline(r, "R3", fn)
+		}
+	}
+	r.Expect("R3", 30)
 
 	r.Kind("R4", "K8")
 	ruleListQuery(r, "R4", m)
